@@ -262,7 +262,7 @@ fn run_format(cfg: &Cfg, index: u64, stats: &mut Stats) {
     };
     stats.count("formatted");
     judge(stats, "format", index, &case.describe(), &input, &output);
-    if index == 5 {
+    if stats.samples.is_empty() {
         stats.sample(json!({"case": case.describe(), "input_excerpt": input.chars().take(200).collect::<String>()}));
     }
 }
